@@ -645,7 +645,7 @@ func testingPredicate(c *Ctx, p *Prog) {
 	}
 	r.Check(ok, "R12.7", "inTesting:init", p.Pos(e.Pos()), "inTesting is is.InTesting() itself", "the 'under go test' predicate of the termination rule is no longer is.InTesting() alone: some go test runs (or production runs) are classified differently, so Panic/Fatal terminate (or do not) where the documented rule says otherwise")
 	for _, fn := range p.RepoFuncs() {
-		if strings.HasPrefix(nm(fn), "init") {
+		if p.startupOnly(fn) {
 			continue
 		}
 		for _, gs := range globalStores(fn) {
@@ -1386,4 +1386,146 @@ func callerArgsUntouched(c *Ctx, p *Prog, rule string) {
 	if n < 10 {
 		r.Unk(rule, "args:functions", "-", "only %d functions with an argument list found", n)
 	}
+}
+
+// ---- a nil context never has a method called on it (R02.9; shared with C07 and C12) ------------------------------------
+//
+// Every entry point tolerates a nil context. For each method call on a context.Context value on the print path the
+// receiver is traced back through parameters (over all static call sites) and joins: every origin must be a value
+// made by package context, or the raw parameter on the not-nil side of a test of that same parameter.
+func nilContextSafe(c *Ctx, p *Prog, m *Model, rule string) {
+	r := c.R
+	isCtx := func(t types.Type) bool { return t.String() == "context.Context" }
+	callers := p.staticCallers()
+	var safe func(v ssa.Value, at *ssa.BasicBlock, depth int, seen map[ssa.Value]bool) string
+	notNilEdge := func(x ssa.Value, pred, to *ssa.BasicBlock) bool {
+		// pred -> to is taken only when x != nil, or pred is dominated by such an edge
+		check := func(blk *ssa.BasicBlock, idx int) bool {
+			iff := ifOf(blk)
+			if iff == nil {
+				return false
+			}
+			cond, neg := normCond(iff.Cond)
+			bo, ok := cond.(*ssa.BinOp)
+			if !ok || strip(bo.X) != strip(x) || !isNilConst(bo.Y) {
+				return false
+			}
+			taken := (idx == 0) != neg
+			return (bo.Op == token.EQL && !taken) || (bo.Op == token.NEQ && taken)
+		}
+		for i, s := range pred.Succs {
+			if s == to && check(pred, i) && pred.Succs[0] != pred.Succs[1] {
+				return true
+			}
+		}
+		for _, g := range guardsOf(pred) {
+			if check(g.Blk, g.Succ) {
+				return true
+			}
+		}
+		return false
+	}
+	safe = func(v ssa.Value, at *ssa.BasicBlock, depth int, seen map[ssa.Value]bool) string {
+		v = strip(v)
+		if seen[v] {
+			return ""
+		}
+		seen[v] = true
+		switch x := v.(type) {
+		case *ssa.Call:
+			if cal := calleeOf(x); cal != nil && cal.Pkg != nil && cal.Pkg.Pkg.Path() == "context" {
+				return ""
+			}
+			return "the result of " + x.Common().String()
+		case *ssa.Phi:
+			for i, e := range x.Edges {
+				if prm, ok := strip(e).(*ssa.Parameter); ok && notNilEdge(prm, x.Block().Preds[i], x.Block()) {
+					continue
+				}
+				if why := safe(e, x.Block().Preds[i], depth, seen); why != "" {
+					return why
+				}
+			}
+			return ""
+		case *ssa.Parameter:
+			if at != nil {
+				for _, g := range guardsOf(at) {
+					cond, neg := normCond(g.If.Cond)
+					if bo, ok := cond.(*ssa.BinOp); ok && strip(bo.X) == v && isNilConst(bo.Y) {
+						taken := (g.Succ == 0) != neg
+						if (bo.Op == token.EQL && !taken) || (bo.Op == token.NEQ && taken) {
+							return ""
+						}
+					}
+				}
+			}
+			fn := x.Parent()
+			idx := -1
+			for i, q := range fn.Params {
+				if q == x {
+					idx = i
+				}
+			}
+			sites := callers[fn]
+			if depth > 6 {
+				return "a call chain too deep to follow"
+			}
+			exported := fn.Object() != nil && fn.Object().Exported() && fn.Parent() == nil
+			if exported && !isExportedRecvOK(fn) {
+				exported = false
+			}
+			if exported {
+				return "the context parameter of the exported " + shortName(fn) + " (a caller may pass nil)"
+			}
+			if len(sites) == 0 || idx < 0 {
+				return "the context parameter of " + shortName(fn) + ", which has no static caller"
+			}
+			for _, cs := range sites {
+				if idx >= len(cs.Common().Args) {
+					continue
+				}
+				if why := safe(cs.Common().Args[idx], cs.Block(), depth+1, seen); why != "" {
+					return why
+				}
+			}
+			return ""
+		case *ssa.Const:
+			if x.IsNil() {
+				return "a nil constant"
+			}
+		}
+		return m.valDesc(v)
+	}
+	tree := printTree(p, m)
+	var fns []*ssa.Function
+	for fn := range tree {
+		fns = append(fns, fn)
+	}
+	sort.Slice(fns, func(i, j int) bool { return shortName(fns[i]) < shortName(fns[j]) })
+	n := 0
+	for _, fn := range fns {
+		for _, cs := range callsIn(fn) {
+			if !cs.Common().IsInvoke() || !isCtx(cs.Common().Value.Type()) {
+				continue
+			}
+			n++
+			key := fmt.Sprintf("nilctx:%s.%s", shortName(fn), invokeName(cs))
+			why := safe(cs.Common().Value, cs.Block(), 0, map[ssa.Value]bool{})
+			r.Check(why == "", rule, key, p.Pos(instrPos(cs)), "every origin of the context is made by package context or passed a not-nil test", "ctx."+invokeName(cs)+" can be called on a nil context: it can be "+why+"; a logging call with a nil context then panics with a nil dereference instead of returning (and instead of panicking with its message, for the Panic severity)")
+		}
+	}
+	if n == 0 {
+		r.OkTrivial(rule, "nilctx:none", "-", "no method is called on a context on the print path")
+	}
+}
+
+// isExportedRecvOK: a method is callable by users only if its receiver type is exported too.
+func isExportedRecvOK(fn *ssa.Function) bool {
+	if fn.Signature.Recv() == nil {
+		return true
+	}
+	if nt := namedOf(fn.Signature.Recv().Type()); nt != nil {
+		return nt.Obj().Exported()
+	}
+	return true
 }
